@@ -32,6 +32,8 @@ type Outcome struct {
 	Sample    any
 	Evals     int // number of cases evaluated by this run (default 1)
 	Events    []string
+	Tagged    map[string][]string // distinct keys counted per tag (e.g. interleavings of one canonical shape)
+	FailPlan  *Plan               // for enumerating scenarios: the single execution that failed (what gets minimised and replayed)
 }
 
 // Scenario is one property's generator + oracle.
@@ -147,6 +149,7 @@ type WorkerResult struct {
 	FirstSeed uint64            `json:"first_seed"`
 	LastSeed  uint64            `json:"last_seed"`
 	MinimiseExecs int           `json:"minimise_execs"`
+	Tagged    map[string][]uint64 `json:"tagged,omitempty"`
 	TraceHash string            `json:"trace_hash,omitempty"`
 }
 
@@ -219,6 +222,7 @@ func TestWorker(t *testing.T) {
 	res := &WorkerResult{Property: prop, Worker: worker, Fired: map[string]int{}, Probes: map[string]int{}, Known: map[string]int{}, KnownWhat: map[string]string{}}
 	distinct := map[uint64]bool{}
 	scheds := map[uint64]bool{}
+	tagged := map[string]map[uint64]bool{}
 	start := time.Now()
 	traceHash := sha256.New()
 	wantTrace := os.Getenv("VERIF_TRACEHASH") != ""
@@ -276,6 +280,14 @@ func TestWorker(t *testing.T) {
 				distinct[strHash(d)] = true
 			}
 		}
+		for tag, ks := range out.Tagged {
+			if tagged[tag] == nil {
+				tagged[tag] = map[uint64]bool{}
+			}
+			for _, k := range ks {
+				tagged[tag][strHash(k)] = true
+			}
+		}
 		if out.SchedHash != "" && len(scheds) < 400000 {
 			scheds[strHash(out.SchedHash)] = true
 		}
@@ -294,6 +306,10 @@ func TestWorker(t *testing.T) {
 			res.KnownWhat[kf.ID] = kf.What
 		}
 		if v != nil {
+			if out.FailPlan != nil {
+				plan = out.FailPlan
+				plan.Property, plan.Seed = prop, seed
+			}
 			orig := plan.Clone()
 			minPlan, minOut, execs := minimise(t, sc, plan, *v)
 			res.MinimiseExecs += execs
@@ -317,6 +333,15 @@ func TestWorker(t *testing.T) {
 	}
 	for h := range scheds {
 		res.Scheds = append(res.Scheds, h)
+	}
+	if len(tagged) > 0 {
+		res.Tagged = map[string][]uint64{}
+		for tag, m := range tagged {
+			for h := range m {
+				res.Tagged[tag] = append(res.Tagged[tag], h)
+			}
+			sort.Slice(res.Tagged[tag], func(i, j int) bool { return res.Tagged[tag][i] < res.Tagged[tag][j] })
+		}
 	}
 	sort.Slice(res.Distinct, func(i, j int) bool { return res.Distinct[i] < res.Distinct[j] })
 	sort.Slice(res.Scheds, func(i, j int) bool { return res.Scheds[i] < res.Scheds[j] })
